@@ -320,7 +320,7 @@ func (C02) Execute(t *testing.T, sc *core.Scenario) *core.Result {
 				var err error
 				if b.Mode == "shared" && b.Store == "journal" {
 					// a second opener of a journaled directory is read-only
-					st, err = nbs.NewLocalJournalingStoreWithOptions(ctx, constants.FormatDefaultString, dir, q, false, func(error) {}, nbs.JournalingStoreOptions{SkipLockFileTimeout: true})
+					st, err = nbs.NewLocalJournalingStoreWithOptions(ctx, constants.FormatDefaultString, dir, q, nbs.DsimMmapArchiveIndexes, func(error) {}, nbs.JournalingStoreOptions{SkipLockFileTimeout: true})
 				} else {
 					st, err = nbs.DsimNewLocalStore(ctx, constants.FormatDefaultString, dir, b.MemTable, 256, q)
 				}
